@@ -276,11 +276,61 @@ static size_t c_bitstream(int in, uint8_t *o, size_t cap) {
     memcpy(o + BS_REGION, &acc, 8);
     return BS_REGION + 8;
 }
+
+/* Scalar varints "on disjoint storage" in the sense of a record of fields:
+ * the threads' regions lie back to back with no padding; each region starts
+ * with a tagged varint that its owner rewrites at every step and ends --
+ * flush against the next thread's region -- with a varint of every width in
+ * turn that its owner steps in place (tagged and external add, no-grow).  A
+ * call that touches a byte outside its own varint disturbs the neighbour. */
+#define SC_REGION 40
+static uint8_t g_sc_slab[MAXTHREADS * SC_REGION + 64] __attribute__((aligned(64)));
+static const uint64_t SC_BASE[10] = {0, 7, 300, 3000, 70000, 1ULL << 25, 1ULL << 33, 1ULL << 41, 1ULL << 49, 1ULL << 57};
+static size_t c_scalar_slab(int in, uint8_t *o, size_t cap) {
+    (void)cap;
+    uint8_t *mine = g_sc_slab + (size_t)tl_tid * SC_REGION;
+    memset(mine, 0, SC_REGION);
+    uint64_t acc = 0;
+    for (int rep = 0; rep < 24; rep++) {
+        for (int w = 1; w <= 9; w++) {
+            int ext = rep & 1;
+            if (ext && w == 9) {
+                continue;
+            }
+            uint8_t *tail = mine + SC_REGION - w;
+            uint64_t base = (ext ? (w == 1 ? 5 : 1ULL << (8 * (w - 1))) : SC_BASE[w]) + IN[in][rep] % 50;
+            if (ext) {
+                varintExternalPutFixedWidth(tail, base, (varintWidth)w);
+            } else {
+                varintTaggedPut64(tail, base);
+            }
+            for (int k = 0; k < 6; k++) {
+                uint64_t hv = IN[in][(rep * 9 + w + k) % N], got = 0;
+                varintTaggedPut64(mine, hv);
+                varintExternalPutFixedWidth(mine + 9, hv, 8);
+                if (ext) {
+                    varintExternalAddNoGrow(tail, (varintWidth)w, 1 + k);
+                    got = varintExternalGet(tail, (varintWidth)w);
+                } else {
+                    varintTaggedAddNoGrow(tail, 1 + k);
+                    varintTaggedGet64(tail, &got);
+                }
+                acc = acc * 1099511628211ULL + got;
+                varintTaggedGet64(mine, &got);
+                acc = acc * 1099511628211ULL + got;
+                acc = acc * 1099511628211ULL + varintExternalGet(mine + 9, 8);
+            }
+        }
+    }
+    memcpy(o, &acc, 8);
+    return 8;
+}
 static const struct { const char *name; callfn fn; } CALLS[] = {
     {"tagged", c_tagged}, {"external", c_ext}, {"chained", c_chained}, {"delta", c_delta}, {"for", c_for},
     {"pfor", c_pfor}, {"group", c_group}, {"dict", c_dict}, {"rle", c_rle}, {"elias", c_elias},
     {"bp128", c_bp}, {"float", c_float}, {"adaptive", c_adaptive}, {"packed", c_packed},
-    {"bitstream", c_bitstream}, {"adaptive_big", c_adaptive_big}, {"bitmap_obj", c_bitmap_obj}, {"readers", c_readers}};
+    {"bitstream", c_bitstream}, {"adaptive_big", c_adaptive_big}, {"bitmap_obj", c_bitmap_obj}, {"readers", c_readers},
+    {"scalar_slab", c_scalar_slab}};
 #define NCALLS (sizeof(CALLS) / sizeof(CALLS[0]))
 
 static pthread_barrier_t bar;
